@@ -39,7 +39,7 @@ package quickfix
 
 //@ func (tv *TagValue) parse [C09,C11]
 //@   requires @nonempty len(rawFieldBytes) >= 1
-//@   requires @lastnoteq rawFieldBytes[len(rawFieldBytes)-1] != 61
+//@   requires @eqpos rawFieldBytes[len(rawFieldBytes)-1] != 61 || (exists p :: off(rawFieldBytes) <= p && p < off(rawFieldBytes) + len(rawFieldBytes) - 1 && bcell(arr(rawFieldBytes), p) == 61)
 //@   ensures @accept result == nil ==> sepok(rawFieldBytes, len(rawFieldBytes) - len(tv.value) - 2)
 //@   ensures @tag result == nil ==> tv.tag == intval(rawFieldBytes[:len(rawFieldBytes) - len(tv.value) - 2])
 //@   ensures @value result == nil ==> tv.value == rawFieldBytes[len(rawFieldBytes) - len(tv.value) - 1 : len(rawFieldBytes)-1 : len(rawFieldBytes)-1]
@@ -134,3 +134,33 @@ package quickfix
 
 //@ func (f FIXUTCTimestamp) Write [C14]
 //@   ensures @length len(result) == (f.Precision == Seconds ? 17 : (f.Precision == Micros ? 24 : (f.Precision == Nanos ? 27 : 21)))
+
+// ---- message.go: field extraction --------------------------------------------------------
+
+// extractField consumes the bytes through the first SOH and parses them as one field
+//@ spec nosoh(d []byte, k int) bool = forall j :: 0 <= j && j < k ==> d[j] != 1
+//@ func extractField [C09,C11]
+//@   requires parsedFieldBytes != nil
+//@   ensures @nodelim (forall j :: 0 <= j && j < len(buffer) ==> buffer[j] != 1) ==> err != nil && remBytes == buffer
+//@   ensures @consumed err == nil ==> len(remBytes) < len(buffer) && buffer[len(buffer) - len(remBytes) - 1] == 1 && nosoh(buffer, len(buffer) - len(remBytes) - 1)
+//@   ensures @rem err == nil ==> remBytes == buffer[len(buffer) - len(remBytes):]
+//@   ensures @field err == nil ==> parsedFieldBytes.bytes == buffer[:len(buffer) - len(remBytes):len(buffer) - len(remBytes)]
+//@   ensures @sep err == nil ==> sepok(parsedFieldBytes.bytes, len(parsedFieldBytes.bytes) - len(parsedFieldBytes.value) - 2)
+//@   ensures @tag err == nil ==> parsedFieldBytes.tag == intval(parsedFieldBytes.bytes[:len(parsedFieldBytes.bytes) - len(parsedFieldBytes.value) - 2])
+//@   ensures @value err == nil ==> parsedFieldBytes.value == parsedFieldBytes.bytes[len(parsedFieldBytes.bytes) - len(parsedFieldBytes.value) - 1 : len(parsedFieldBytes.bytes)-1 : len(parsedFieldBytes.bytes)-1]
+//@   ensures @shorter len(remBytes) <= len(buffer)
+//@   modifies parsedFieldBytes.*
+
+//@ func extractSpecificField [C09,C11]
+//@   requires field != nil
+//@   ensures @tagmatch err == nil ==> field.tag == expectedTag
+//@   ensures @consumed err == nil ==> len(remBuffer) < len(buffer) && remBuffer == buffer[len(buffer) - len(remBuffer):]
+//@   ensures @field err == nil ==> field.bytes == buffer[:len(buffer) - len(remBuffer):len(buffer) - len(remBuffer)]
+//@   ensures @shorter len(remBuffer) <= len(buffer)
+//@   modifies field.*
+
+//@ func extractXMLDataField [C09,C11]
+//@   requires parsedFieldBytes != nil
+//@   requires @poslen dataLen > 0
+//@   ensures @shorter len(remBytes) <= len(buffer)
+//@   modifies parsedFieldBytes.*
